@@ -35,7 +35,7 @@ func ruleP17Rounding(p *Prog, r *Report) {
 	}
 	// the rounded offset: the minutes of the duration added to midnight
 	var plus ssa.CallInstruction
-	eachInstr(f, func(in ssa.Instruction) {
+	eachVInstr(f, func(in ssa.Instruction) {
 		if c, ok := in.(ssa.CallInstruction); ok {
 			if n, _, _, _ := methodCallOf(c); n == "Plus" {
 				plus = c
@@ -377,7 +377,12 @@ func ruleP04Resume(p *Prog, r *Report) {
 		}
 		// its summary is what is returned on the ok edge
 		okRet := false
+		extra := ""
 		okFlag := resultOf(c, 1)
+		atLookup := map[string]bool{}
+		for _, g := range guardsOf(c.Block()) {
+			atLookup[fmt.Sprintf("%p/%v", g.Cond, g.Pol)] = true
+		}
 		for _, ret := range returnsOf(sum) {
 			if nm, recv, _, _ := methodCall(retResult(ret, 0)); nm == "Summary" {
 				if a2, isA := strip(recv).(*ssa.Alloc); isA {
@@ -386,6 +391,8 @@ func ruleP04Resume(p *Prog, r *Report) {
 							for _, g := range guardsOf(ret.Block()) {
 								if okFlag != nil && strip(g.Cond) == okFlag && g.Pol {
 									okRet = true
+								} else if !atLookup[fmt.Sprintf("%p/%v", g.Cond, g.Pol)] {
+									extra = g.Cond.String()
 								}
 							}
 						}
@@ -394,6 +401,9 @@ func ruleP04Resume(p *Prog, r *Report) {
 			}
 		}
 		r.check(okRet, rule, key+":summary", p.instrPos(c), "when found, that entry's summary is returned", "the summary of the entry found is not what is returned")
+		if okRet {
+			r.check(extra == "", rule, key+":summary-whenever-found", p.instrPos(c), "found is the only condition for taking over the entry's summary", "the entry found is used only under a further condition ("+extra+"): when it does not hold the command goes on to the next source (an older record) or fails, although the entry asked for exists")
+		}
 	}
 	r.check(n == 3, rule, "Summary:lookups", p.pos(sum.Pos()), "three lookups: last of current, last of previous, nth of current", fmt.Sprintf("%d entry lookups, expected 3", n))
 	// --summary given -> returned as is; conflicting flags -> error; nth not found -> error
